@@ -966,10 +966,17 @@ class Variable(CanBehaveLikeAVariable[T]):
             yield dict(bound)
             return
         (name, child_var), remaining = child_vars[0], child_vars[1:]
-        for value in child_var._evaluate__(copy(bindings)):
-            new_bindings = copy(bindings)
-            new_bindings.update(value)
-            yield from self._bind_child_vars_(new_bindings, remaining, {**bound, name: value})
+        # An argument is evaluated as a value here, also when the same expression stands as a condition elsewhere in the
+        # query: what it is an operand of while it is bound is this variable.
+        eval_parent = child_var._eval_parent_
+        child_var._eval_parent_ = self
+        try:
+            for value in child_var._evaluate__(copy(bindings)):
+                new_bindings = copy(bindings)
+                new_bindings.update(value)
+                yield from self._bind_child_vars_(new_bindings, remaining, {**bound, name: value})
+        finally:
+            child_var._eval_parent_ = eval_parent
 
     def _yield_from_cache_or_instantiate_new_values_(self, sources: Optional[Dict[int, HashedValue]] = None,
                                                      kwargs: Dict[str, Dict[int, HashedValue]] = None):
